@@ -31,13 +31,13 @@ type Site struct {
 }
 
 type Report struct {
-	Module      string   `json:"module"`
-	Sites       []Site   `json:"sites"`
-	SyncFiles   []string `json:"sync_rewritten_in"`
-	Unmodelled  []string `json:"unmodelled"` // go statements, channel ops, select, time.Sleep...
-	ChanBrackets int     `json:"channel_statements_bracketed"`
-	MapRanges   int      `json:"map_ranges_rewritten"`
-	OtherRanges int      `json:"uncontrolled_ranges"`
+	Module       string   `json:"module"`
+	Sites        []Site   `json:"sites"`
+	SyncFiles    []string `json:"sync_rewritten_in"`
+	Unmodelled   []string `json:"unmodelled"` // go statements, channel ops, select, time.Sleep...
+	ChanBrackets int      `json:"channel_statements_bracketed"`
+	MapRanges    int      `json:"map_ranges_rewritten"`
+	OtherRanges  int      `json:"uncontrolled_ranges"`
 }
 
 type edit struct {
